@@ -37,6 +37,7 @@ import (
 
 	"verifharness/internal/keys"
 	"verifharness/internal/prng"
+	"verifharness/internal/script"
 )
 
 // posResolver knows one symmetric key, for the identifier at one position.
@@ -79,8 +80,50 @@ func scHeaderIdents(msg []byte) ([][]byte, bool) {
 	return ids, true
 }
 
+// arm.sc.seal sender boxes syms eph src brand pt — the REAL SigncryptArmor62Seal, randomness scripted
+func execArmScSeal(t []string) string {
+	src := parseSource(t[5])
+	c := parseEph(t[4], src)
+	var sender saltpack.SigningSecretKey
+	if t[1] != "anon" {
+		sender = keys.NewSigSecret(unhex(t[1]), nil)
+	}
+	boxes, _ := parseSRecips(t[2], c)
+	_, syms := parseSRecips(t[3], c)
+	var out string
+	var err error
+	script.With(src, func() {
+		out, err = saltpack.SigncryptArmor62Seal(unhex(t[7]), c, sender, boxes, syms, string(unhex(t[6])))
+	})
+	return sealResult([]byte(out), err, src)
+}
+
+// arm.sc.open secrets resolver text — the REAL Dearmor62SigncryptOpen
+func execArmScOpen(t []string) string {
+	ring := parseRing(t[1], "std", "std", "std", "std", &keys.Log{})
+	spk, pt, brand, err := saltpack.Dearmor62SigncryptOpen(string(unhex(t[3])), ring, parseResolver(t[2]))
+	if err != nil {
+		return "err " + script.Class(err)
+	}
+	snd := "anon"
+	if spk != nil {
+		snd = keys.Hex(spk.ToKID())
+	}
+	return fmt.Sprintf("ok sender=%s pt=%s brand=%s", snd, keys.Hex(pt), keys.Hex([]byte(brand)))
+}
+
 func goExecExtG(t []string) (string, bool) {
 	switch t[0] {
+	case "arm.sc.seal":
+		if len(t) != 8 {
+			return "bad-op", true
+		}
+		return execArmScSeal(t), true
+	case "arm.sc.open":
+		if len(t) != 4 {
+			return "bad-op", true
+		}
+		return execArmScOpen(t), true
 	case "sd.scall":
 		if len(t) != 3 {
 			return "bad-op", true
@@ -366,6 +409,108 @@ func genOracleScAll(ctx *Ctx, emit func(Case)) {
 	}
 }
 
+// C03: the armored signcryption entry points of Model/Armored.lean against SigncryptArmor62Seal /
+// Dearmor62SigncryptOpen: the sealed text byte for byte (so the frame type the MODEL chooses is the
+// library's), the round trip through the armored opener, no key => no-decryption-key, and texts with
+// the frames of another message type (or no valid frame) refused.  errCmp: refusals of the ARMOR layer
+// are compared as refusals (the whole-text decoder's error kind need not be the streaming one's).
+func genArmoredSigncrypt(ctx *Ctx, emit func(Case)) {
+	r := ctx.R.Fork()
+	errCmp := func(a, b string) bool {
+		if strings.HasPrefix(a, "err ") && strings.HasPrefix(b, "err ") {
+			ka, kb := strings.Contains(a, "no-decryption-key"), strings.Contains(b, "no-decryption-key")
+			return ka == kb
+		}
+		return a == b
+	}
+	for round := 0; round < ctx.N(6, 60); round++ {
+		kinds := prng.Pick(r, "b", "s", "bs", "bb", "sb")
+		var boxes, syms, boxSecrets []string
+		var symKeys [][]byte
+		for _, ch := range kinds {
+			if ch == 'b' {
+				sk := r.Bytes(32)
+				boxSecrets = append(boxSecrets, keys.Hex(sk))
+				boxes = append(boxes, "b:"+keys.Hex(boxPub(sk)))
+			} else {
+				k := r.Bytes(32)
+				symKeys = append(symKeys, k)
+				syms = append(syms, "s:"+keys.Hex(k)+":"+keys.Hex(r.Bytes(32)))
+			}
+		}
+		jl := func(l []string) string {
+			if len(l) == 0 {
+				return "-"
+			}
+			return strings.Join(l, ",")
+		}
+		snd := keys.Hex(r.Bytes(32))
+		if r.Intn(3) == 0 {
+			snd = "anon"
+		}
+		ephRand := r.Bool()
+		eph := "r"
+		if !ephRand {
+			eph = "g:" + keys.Hex(r.Bytes(32))
+		}
+		brand := prng.Pick(r, "-", keys.Hex([]byte("KEYBASE")), keys.Hex([]byte("x9")))
+		pt := r.Bytes(prng.Pick(r, 0, 1, 31, 64, 300, 1000))
+		line := fmt.Sprintf("arm.sc.seal %s %s %s %s %s %s %s", snd, jl(boxes), jl(syms), eph,
+			randScript(r, len(kinds), ephRand, -1, 0).Spec(), brand, keys.Hex(pt))
+		out := goExec(line)
+		emit(Case{Stream: "arm.sc.seal", Line: line, GoOut: out, Branch: fmt.Sprintf("%s/brand=%v/len=%s", kinds, brand != "-", sizeClass(len(pt)))})
+		f := strings.Fields(out)
+		if len(f) < 2 || f[0] != "ok" {
+			continue
+		}
+		text := f[1]
+		// round trip with a recipient's key
+		if len(boxSecrets) > 0 {
+			ol := fmt.Sprintf("arm.sc.open %s none %s", boxSecrets[r.Intn(len(boxSecrets))], text)
+			oo := goExec(ol)
+			want := fmt.Sprintf("pt=%s brand=%s", keys.Hex(pt), brand)
+			emit(Case{Stream: "arm.sc.open", Line: ol, GoOut: oo, Cmp: errCmp, Branch: "roundtrip",
+				Direct: func() string {
+					if !strings.HasPrefix(oo, "ok ") || !strings.HasSuffix(oo, want) {
+						return fmt.Sprintf("Dearmor62SigncryptOpen of SigncryptArmor62Seal's text does not return the plaintext and brand: %s -> %s", trunc(ol, 300), trunc(oo, 300))
+					}
+					return ""
+				}})
+		}
+		// a foreign key: no-decryption-key through the armored opener
+		{
+			ol := fmt.Sprintf("arm.sc.open %s none %s", keys.Hex(r.Bytes(32)), text)
+			oo := goExec(ol)
+			emit(Case{Stream: "arm.sc.open", Line: ol, GoOut: oo, Cmp: errCmp, Branch: "nokey",
+				Direct: func() string {
+					if !strings.Contains(oo, "no-decryption-key") {
+						return fmt.Sprintf("a holder of no recipient key does not get no-decryption-key from Dearmor62SigncryptOpen: %s -> %s", trunc(ol, 300), trunc(oo, 300))
+					}
+					return ""
+				}})
+		}
+		// the same payload under the frames of a SIGNED message / a detached signature: refused
+		{
+			raw, _, _, err := saltpack.Armor62Open(string(unhex(text)))
+			if err == nil {
+				for _, typ := range []saltpack.MessageType{saltpack.MessageTypeAttachedSignature, saltpack.MessageTypeDetachedSignature} {
+					other, _ := saltpack.Armor62Seal(raw, typ, string(unhex(brand)))
+					ol := fmt.Sprintf("arm.sc.open %s none %s", jl(boxSecrets), keys.Hex([]byte(other)))
+					oo := goExec(ol)
+					emit(Case{Stream: "arm.sc.open", Line: ol, GoOut: oo, Cmp: errCmp, Branch: fmt.Sprintf("wrongframe/%d", int(typ)),
+						Direct: func() string {
+							if !strings.HasPrefix(oo, "err ") {
+								return fmt.Sprintf("Dearmor62SigncryptOpen accepts a text with the frames of another message type: %s -> %s", trunc(ol, 300), trunc(oo, 300))
+							}
+							return ""
+						}})
+				}
+			}
+		}
+	}
+}
+
 func init() {
 	regExtra("C08", genOracleScAll)
+	regExtra("C03", genArmoredSigncrypt)
 }
